@@ -121,7 +121,7 @@ PROPS = {
         "level": "other",
         "rules": [("CP", 4, has("decision_nnf::")), ("TS", 7, has("TS-BAL")), ("DP", 3, has("topdown")),
                   ("GL", 2, has("component-cache", "topdown_h:GL11")), ("SP", 10, has("SP1")),
-                  ("SH", 6, has("decision_nnf::")), ("RN", 7, has("RN4")),
+                  ("SH", 6, has("decision_nnf::")), ("RN", 5, has("RN4")),
                   ("WP", 4, has("update_hash_and_sat_set")), ("PR", 1, has("SATSolver")),
                   ("TD", 4, None), ("VO", 1, vo_sel("decision_nnf", only_label_order=True)),
                   ("EC", 4, None)],
